@@ -28,7 +28,7 @@ RULE = (
     "pristine copy with exactly that fault: exhaustive over the trace. Oracle after each faulted session: every "
     "test file is byte-equal to its previous content or to the content of the un-faulted run, or (formatter "
     "faults) parses, has the syntax tree of the un-faulted result and passes when re-executed with inline-snapshot inactive; it always parses and is never a "
-    "strict prefix of the new content; a formatter crash / non-zero exit / empty output is reported under Problems; after a "
+    "strict prefix of the new content; a formatter crash / non-zero exit / death by a signal after partial output / empty output is reported under Problems; after a "
     "simulated next session start (all -new files pruned) every external(...) reference in every test file "
     "resolves to exactly one stored file. non-trivial = the fault hits a boundary after the first persist or "
     "before the last write of a multi-file change set."
@@ -192,7 +192,7 @@ def judge(case, files, good, t, kind, r):
             fail("broken-file", f"{name} is neither its previous nor its new content and does not parse: {e}\n{now[:600]!r}")
         if not formatter_fault:
             fail("mixed-content", f"{name} is neither its previous nor its complete new content\n{text}")
-    if formatter_fault and kind in ("raise", "nonzero", "empty") and "Problems" not in r.stdout:
+    if formatter_fault and kind in ("raise", "nonzero", "empty", "killed") and "Problems" not in r.stdout:
         # the problem must be reported (unless the session could not get that far)
         if "Traceback" not in r.stderr and "INTERNALERROR" not in r.stdout:
             fail("formatter-failure-not-reported", "no Problems section in the report")
